@@ -25,6 +25,15 @@ POOL = {
     10: '    j start\n    addi x5, x5, L\n',
     11: 'zero = 5\n',
     12: 'X = x31\nt = 3\n    slli X, X, t\n',
+    # pairs that share the TEXT of their lines but not their meaning (a cache keyed by text / name would confuse them)
+    13: 'N = 4\nSIZE = N * 4\n    addi x5, x0, SIZE\n    dw SIZE\n',
+    14: 'N = 8\nSIZE = N * 4\n    addi x5, x0, SIZE\n    dw SIZE\n',
+    15: 'R = x5\nQ = R\n    addi Q, Q, 1\n',
+    16: 'R = x6\nQ = R\n    addi Q, Q, 1\n',
+    17: '    nop\nL:\n    j L\n    li x9, L\n',
+    18: 'L:\n    nop\n    j L\n    li x9, L\n',
+    19: 'BASE = 0x1000\n    lui x5, %hi(BASE)\n    addi x5, x5, %lo(BASE)\n',
+    20: 'BASE = 0x1800\n    lui x5, %hi(BASE)\n    addi x5, x5, %lo(BASE)\n',
 }
 BASELINE_SNIPPET = r'''
 import sys, json
@@ -136,7 +145,7 @@ def _cli_seed(args):
 def c16(run, scratch):
     cfg = os.path.join(scratch, 'sess.cfg')
     pool = set(POOL)
-    pool3 = {1, 2, 6, 8, 10} if run.tier == 'quick' else {1, 2, 3, 4, 6, 8, 10, 12}
+    pool3 = {1, 2, 6, 8, 13, 14} if run.tier == 'quick' else {1, 2, 3, 4, 6, 8, 10, 12, 13, 14, 17, 18}
     tlc.write_cfg(cfg, spec='Spec', constants={'Pool': pool, 'Pool3': pool3, 'MaxLen': 3 if run.tier == 'quick' else 4},
                   invariants=['Export'], properties=['TablesConstant'])
     r = tlc.run('AsmSession', cfg, workers=1, heap='4g', timeout=3600)
@@ -200,7 +209,7 @@ def c16(run, scratch):
     run.coverage['distinct_call_inputs_baselined'] = len(base)
     run.coverage['cli_hash_seed_runs'] = len(jobs)
     run.coverage['exhaustive'] = True
-    run.coverage['rule'] = ('TLC enumerates every history of <= 3 (4) calls over 12 interfering programs (same names as constant / label / register alias in different programs, '
+    run.coverage['rule'] = ('TLC enumerates every history of <= 3 (4) calls over 20 interfering programs (incl. pairs that share the text of every line but not its meaning) (same names as constant / label / register alias in different programs, '
                             'failures in parse / constants / immediates / encode / error directive, compressible layouts) x compress x dictionary mode (not passed / fresh / the '
                             'objects of the previous call); the third and later calls range over a sub-pool; every history is replayed in one interpreter (thousands back to back) '
                             'and each call compared with the same call alone in a fresh interpreter; module tables digested after every call; every program run through the CLI '
